@@ -179,6 +179,27 @@ def check_get_bases(idx: Index, rep: Report) -> None:
         r.fail(f.fq, Finding("C09.R1", f.fq, "anyof-disjointness", f"AnyOf.__init__ no longer enforces {miss}: overlapping alternatives make the exact-class dispatch pick the wrong alternative", f.loc))
     else:
         r.ok(f.fq, f"{f.loc} alternatives are checked to be pairwise disjoint (exact bases, one abstract BaseAttr, no subclass overlap)")
+    # the subclass-overlap test must cover every (exact base, abstract alternative) pair whatever the order of the
+    # alternatives: it runs after the loop over the alternatives, or inside it on both arrival orders
+    aparam = f.node.args.args[1].arg
+    alt_loops = [w for w in walk_local(f.node) if isinstance(w, ast.For) and aparam in {x.id for x in ast.walk(w.iter) if isinstance(x, ast.Name)}]
+    sub_raises = [n for n, g_ in zip(raises, guards) if any(re.fullmatch(NEED["no exact base is a subclass of the abstract alternative"][0], t_) and p_ for t_, p_ in g_)]
+    if sub_raises and len(alt_loops) == 1:
+        L = alt_loops[0]
+        inside = [n for n in sub_raises if any(x is n for x in ast.walk(L))]
+        outside = [n for n in sub_raises if n not in inside]
+        if outside:
+            r.ok(f.fq + ":overlap-order", f"{f.loc} subclass overlap is tested after all alternatives are registered (line {outside[0].lineno})")
+        else:
+            # inside the loop only: the arrival of the abstract alternative must test the bases registered so far
+            bases_vars = {n.targets[0].id for n in ast.walk(L) if isinstance(n, ast.Assign) and len(n.targets) == 1 and isinstance(n.targets[0], ast.Name) and isinstance(n.value, ast.Call) and call_attr(n.value) == "get_bases"}
+            at_arrival = [n for n in inside if any(p_ and t_ in {f"{b_} is None" for b_ in bases_vars} for t_, p_ in norm_facts(text_facts(f.node, n)))]
+            if at_arrival:
+                r.ok(f.fq + ":overlap-order", f"{f.loc} subclass overlap is tested on both arrival orders inside the loop")
+            else:
+                r.fail(f.fq + ":overlap-order", Finding("C09.R1", f.fq, "anyof-overlap-order-dependent", f"the subclass-overlap test (line {inside[0].lineno}) runs only inside the loop over the alternatives, against the abstract alternative seen so far: an exact alternative listed *before* the abstract BaseAttr is never compared with it, so `AnyOf((Eq(i32), BaseAttr(TypeAttribute)))` is built and verify() dispatches every IntegerType to the exact alternative, rejecting what the abstract one accepts", f"{f.module.relpath}:{inside[0].lineno}"))
+    elif sub_raises:
+        raise AnalysisError(f"{f.fq}: loop over the alternatives not identified")
     g = idx.func(CONS, "AnyOf.verify")
     from ..paths import enum_paths
 
